@@ -70,6 +70,24 @@ Theorem C08_store_invariant :
 Proof. exact (fun N mf succs subj sk bad => store_invariant N mf succs subj sk bad (fun _ => false)). Qed.
 Print Assumptions C08_store_invariant.
 
+(* GC after any history, as one operation: exactly the blob files of the rebuilt graph stay, every
+   reference that is left names a node of that graph, no tag is lost and no digest reference of a
+   node that stays in the graph is lost - the abstract "keep the nodes of the graph" GC step of
+   Model/OciLocks.v (KRegGC / KSweep with keep = the rebuilt graph) is what gcIndex + sweep do *)
+Theorem C08_gc_effect :
+  forall (N : nat) (mf : nat -> bool) (succs : nat -> list nat) (subj : nat -> option nat)
+         (sk bad : nat -> bool) (cfg : config) (h : list (op * orders)) (o : orders),
+    wf_history mf h -> (autosave cfg = true \/ no_reopen h) ->
+    let s := run N mf succs subj sk bad true true true true true cfg h store_empty in
+    snd (st_gc N mf succs subj sk true true true cfg o s) = ROk ->
+    let s' := fst (st_gc N mf succs subj sk true true true cfg o s) in
+    blobs s' = filter (fun k => mem k (gr s')) (blobs s) /\
+    (forall r d, lookup r (r_index (res s')) = Some d -> In (d_node d) (gr s')) /\
+    (forall t d, lookup (RTag t) (r_index (res s)) = Some d -> lookup (RTag t) (r_index (res s')) <> None) /\
+    (forall k, lookup (RDig k) (r_index (res s)) <> None -> In k (gr s') -> lookup (RDig k) (r_index (res s')) <> None).
+Proof. exact (fun N mf succs subj sk bad => gc_effect_history N mf succs subj sk bad (fun _ => false)). Qed.
+Print Assumptions C08_gc_effect.
+
 (* index.json written by saveIndex is, for every pair of iteration orders, a projection of
    the resolver map from which loadIndex rebuilds it *)
 Theorem C08_save_is_projection :
